@@ -96,8 +96,14 @@ static void post_oracles(const Plan& p, const ExecOpts& eo, RunResult& r) {
       }
     }
 }
-static RunResult run_plan(const Plan& p, const ExecOpts& eo) { Executor ex(p, eo); RunResult r = ex.run(); post_oracles(p, eo, r); return r; }
+static void leak_oracle(const ExecOpts& eo, RunResult& r);
+static RunResult run_plan(const Plan& p, const ExecOpts& eo) { RunResult r; { Executor ex(p, eo); r = ex.run(); } post_oracles(p, eo, r); leak_oracle(eo, r); return r; }
 
+extern "C" int __lsan_do_recoverable_leak_check() __attribute__((weak));
+static void leak_oracle(const ExecOpts& eo, RunResult& r) {
+  if (!__lsan_do_recoverable_leak_check || !eo.want("C13")) return;
+  if (__lsan_do_recoverable_leak_check() != 0) { Violation v; v.prop = "C13"; v.oracle = "leak"; v.detail = "LeakSanitizer reports memory that became unreachable during this run"; r.viol.push_back(v); }
+}
 static double now_s() { return std::chrono::duration<double>(std::chrono::steady_clock::now().time_since_epoch()).count(); }
 
 static std::string read_file(const std::string& f) { std::ifstream in(f, std::ios::binary); std::stringstream ss; ss << in.rdbuf(); return ss.str(); }
@@ -168,7 +174,7 @@ static Plan shrink(Plan p, const ExecOpts& eo, const std::string& key, int* reru
 }
 
 int main(int argc, char** argv) {
-  std::string engine = "stop", prop, replay, shrinkf, out, knownf, scratch = "/tmp", tier = "quick", oracle_key, dumpseed;
+  std::string engine = "stop", prop, replay, shrinkf, out, knownf, scratch = "", tier = "quick", oracle_key, dumpseed;
   uint64_t rawseed = 0; uint64_t seed0 = 1; long start = 0, stride = 1, count = 100; double deadline = 1e18; bool sacrificial = false, verbose = false;
   for (int i = 1; i < argc; i++) {
     std::string a = argv[i]; auto nxt = [&]() { return std::string(i + 1 < argc ? argv[++i] : ""); };
@@ -181,8 +187,10 @@ int main(int argc, char** argv) {
     else if (a == "--dump") dumpseed = nxt();
     else if (a == "--rawseed") rawseed = strtoull(nxt().c_str(), nullptr, 10);
   }
+  if (scratch.empty()) scratch = "/tmp/simdisk-" + std::to_string((long)getpid());
+  else scratch += "/simdisk";
   install_hooks();
-  { std::string cmd = "mkdir -p '" + scratch + "'"; int rc = system(cmd.c_str()); (void)rc; }
+  { std::string cmd = "mkdir -p '" + scratch + "' '" + scratch + "-plans'"; int rc = system(cmd.c_str()); (void)rc; }
   ExecOpts eo; eo.scratch = scratch; eo.sacrificial = sacrificial; eo.verbose = verbose;
   if (!prop.empty()) { std::istringstream ps(prop); std::string x; while (std::getline(ps, x, ',')) eo.props.insert(x); }
   if (!knownf.empty()) eo.known = load_known(knownf);
@@ -225,13 +233,12 @@ int main(int argc, char** argv) {
     uint64_t seed = rawseed ? rawseed : mix(seed0, (uint64_t)(start + n * stride));
     printf("B %llu %ld\n", (unsigned long long)seed, start + n * stride); fflush(stdout);
     Plan p = generate_plan(engine, seed, go);
-    Executor ex(p, eo); RunResult r = ex.run();
-    post_oracles(p, eo, r);
+    RunResult r = run_plan(p, eo);
     if (!r.viol.empty()) {
       // determinism gate: same plan again in this process must give the same digest and the same violations
       RunResult r2 = run_plan(p, eo);
       bool same = r2.digest == r.digest && r2.viol.size() == r.viol.size();
-      std::string pf = scratch + "/viol-" + std::to_string(seed) + ".plan";
+      std::string pf = scratch + "-plans/viol-" + std::to_string(seed) + ".plan";
       Plan pr = p; if (!r.sched_trace.empty()) pr.sched = r.sched_trace;
       write_file(pf, pr.text());
       for (auto& v : r.viol) { printf("V %s\n", viol_json(v, seed, same).c_str()); }
